@@ -49,8 +49,12 @@ func main() {
 	workers := flag.Int("workers", 16, "worker processes")
 	level := flag.String("level", "exploration", "evidence level")
 	verif := flag.String("verif", "/verif", "verif dir")
+	out := flag.String("out", "", "directory for evidence/ and replays/ (default: the verif dir)")
 	memKB := flag.Int64("memkb", 6*1024*1024, "ulimit -v per worker (KB)")
 	flag.Parse()
+	if *out == "" {
+		*out = *verif
+	}
 
 	seed := uint64(1)
 	if v := os.Getenv("VERIF_SEED"); v != "" {
@@ -75,7 +79,7 @@ func main() {
 		infra("mkdtemp: %v", err)
 	}
 	defer os.RemoveAll(tmp)
-	replayDir := filepath.Join(*verif, "replays")
+	replayDir := filepath.Join(*out, "replays")
 	_ = os.MkdirAll(replayDir, 0o755)
 
 	var wg sync.WaitGroup
@@ -273,8 +277,8 @@ func main() {
 		"violations":  len(unknown),
 	}
 	b, _ := json.MarshalIndent(ev, "", " ")
-	_ = os.MkdirAll(filepath.Join(*verif, "evidence"), 0o755)
-	if err := os.WriteFile(filepath.Join(*verif, "evidence", *prop+".json"), b, 0o644); err != nil {
+	_ = os.MkdirAll(filepath.Join(*out, "evidence"), 0o755)
+	if err := os.WriteFile(filepath.Join(*out, "evidence", *prop+".json"), b, 0o644); err != nil {
 		infra("write evidence: %v", err)
 	}
 	fmt.Printf("summary property=%s runs=%d discarded=%d steps=%d distinct_traces=%d states=%d sim_time=%.0fs wall=%.1fs runs/h=%.0f det_rechecked=%d\n",
